@@ -96,6 +96,7 @@ type c8world struct {
 	failing           *zap.Logger // over a device whose writes fail
 	failingCore       zapcore.Core
 	conPanic          *zap.Logger   // console logger whose header callbacks panic for some entries
+	wide              *zap.Logger   // logger over a tee of ten cores
 	errFailing        *zsim.SimSink // error output of the logger over the failing device
 	errOthers         *zsim.SimSink // error output of every other logger: nothing is ever due there
 	failWant          int           // failed writes that went through the failing logger (one report each)
@@ -185,6 +186,9 @@ func (w *c8world) history(kind, a int, lg *zap.Logger) {
 			w.failing.Error("with a reflected field to a failing device", zap.Reflect("r", c8refl{a, "f", nil}))
 		}
 		w.failWant++
+	case 19:
+		// an entry accepted by ten cores at once (a wide tee on another logger)
+		w.wide.Info("through a tee of ten cores", zap.Int("a", a))
 	case 18:
 		// a console entry whose header callback panics after part of the header
 		// has been collected; recovered by the application
@@ -249,7 +253,7 @@ type c8hook struct{ w *c8world }
 
 func (h c8hook) OnWrite(*zapcore.CheckedEntry, []zapcore.Field) { h.w.hookGot++ }
 
-const c8kinds = 19
+const c8kinds = 20
 
 // c8panicArr: a user marshaler with a bug. zap does not contain panics of
 // object and array marshalers; the application (an HTTP server, say) recovers
@@ -355,6 +359,13 @@ func runC08(c *Ctx) {
 		}
 		ps := zsim.NewSimSink(r, "header-panics", 1, 78)
 		w.conPanic = zap.New(zapcore.NewCore(zapcore.NewConsoleEncoder(cfgP), zapcore.Lock(ps), zapcore.DebugLevel), zap.WithClock(clk), zap.AddCaller())
+	}
+	{
+		var cs []zapcore.Core
+		for i := 0; i < 10; i++ {
+			cs = append(cs, zapcore.NewCore(mkEnc(i%3 == 2), zapcore.Lock(zsim.NewSimSink(r, fmt.Sprintf("wide%d", i), 1, uint64(80+i))), zapcore.DebugLevel))
+		}
+		w.wide = zap.New(zapcore.NewTee(cs...), zap.WithClock(clk))
 	}
 	// after the reference call the pools switch to a reusing policy
 	policy := pick(g, simsync.PoolLIFO, simsync.PoolLIFO, simsync.PoolFIFO, simsync.PoolRandom)
